@@ -296,6 +296,12 @@ def dump_for_tree(sym, n):
     sym.check("entries", len(doc["data"]) == 2)
     sym.check("inside-relative", doc["data"][0] == {"file": inside, "size": size, "checksums": {"md5": cs}})
     sym.check("other-unchanged", doc["data"][1] == {"file": other, "size": 7, "checksums": {"md5": "x"}})
+    # writing a per-tree view is not an add: the manifest still says what the add calls said, and a second view is the same
+    sym.check("manifest-untouched-by-the-dump", ef.extra_files == {"Server": {"x86_64": [{"file": base + "/" + inside, "size": size, "checksums": {"md5": cs}},
+                                                                                        {"file": other, "size": 7, "checksums": {"md5": "x"}}]}})
+    again = ExtraFilesIO()
+    ef.dump_for_tree(again, "Server", "x86_64", base)
+    sym.check("second-view-identical", again.text() == out.text())
 
 
 class ExtraFilesIO(object):
